@@ -17,6 +17,8 @@ import (
 	"math"
 	"math/big"
 	"reflect"
+	"strconv"
+	"strings"
 
 	"github.com/hprose/hprose-golang/v3/internal/convert"
 	"github.com/modern-go/reflect2"
@@ -58,9 +60,24 @@ func (dec *Decoder) stringToBigFloat(s string, t reflect.Type) *big.Float {
 	return nil
 }
 
+// maxRatExponent is the largest decimal exponent accepted in the text of a
+// rational number: big.Rat writes out all the digits of 10^exponent.
+const maxRatExponent = 4096
+
+func ratExponentBounded(s string) bool {
+	i := strings.LastIndexAny(s, "eE")
+	if i < 0 {
+		return true
+	}
+	n, err := strconv.Atoi(s[i+1:])
+	return err == nil && -maxRatExponent <= n && n <= maxRatExponent
+}
+
 func (dec *Decoder) stringToBigRat(s string, t reflect.Type) *big.Rat {
-	if bf, ok := new(big.Rat).SetString(s); ok {
-		return bf
+	if ratExponentBounded(s) {
+		if bf, ok := new(big.Rat).SetString(s); ok {
+			return bf
+		}
 	}
 	dec.decodeStringError(s, t.String())
 	return nil
